@@ -55,60 +55,200 @@ class HarnessError(RuntimeError):
 # ------------------------------------------------------------------------------------------------
 # the grid (mirror of ClfConnect!IsCfg)
 
-def variants(with_disc, is_card=False):
-    absent = dict(has=False, su="keep", disc=True, conn=True, rel=True)
-    # the option given as {}: all documented defaults (card: the default on-startup returns None = option removed)
-    empty = dict(has=True, su="drop" if is_card else "keep", disc=True, conn=True, rel=True, empty=True)
-    out = [absent, empty, dict(has=True, su="drop", disc=True, conn=True, rel=True),
-           dict(has=True, su="wrong", disc=True, conn=True, rel=True),
-           dict(has=True, su="keep", disc=True, conn=False, rel=True),
-           dict(has=True, su="keep", disc=True, conn=True, rel=True),
-           dict(has=True, su="keep", disc=True, conn=True, rel=False)]
-    if with_disc:
-        out.append(dict(has=True, su="keep", disc=False, conn=True, rel=True))
+CBN = ("startup", "discover", "connect", "release")
+
+
+def G(s, d, c, r):
+    return dict(startup=s, discover=d, connect=c, release=r)
+
+
+NOG = G(False, False, False, False)
+
+
+def allg(with_disc):
+    return G(True, with_disc, True, True)
+
+
+def defsu(o):
+    return "drop" if o == "card" else "keep"
+
+
+def OV(top, g, su, disc, conn, rel):
+    return dict(top=top, giv=dict(g), su=su, disc=disc, conn=conn, rel=rel)
+
+
+def notgiven():
+    # the keyword is absent / given as None
+    return [OV("absent", NOG, "keep", True, True, True), OV("none", NOG, "keep", True, True, True)]
+
+
+def kept(g):
+    out = [OV("dict", g, "keep", True, False, True), OV("dict", g, "keep", True, True, True),
+           OV("dict", g, "keep", True, True, False)]
+    if g["discover"]:
+        out.append(OV("dict", g, "keep", False, True, True))
     return out
 
 
+def variants(o):
+    wd = o != "llcp"
+    # {}: all documented defaults (card: the default on-startup returns None = option removed)
+    return notgiven() + [OV("dict", NOG, defsu(o), True, True, True),
+                         OV("dict", allg(wd), "drop", True, True, True),
+                         OV("dict", allg(wd), "wrong", True, True, True)] + kept(allg(wd))
+
+
+def partial(o):
+    """only some of the callback keys given: the given ones all return their go-on value, or one of them the other"""
+    out = []
+    for bits in itertools.product((False, True), repeat=4):
+        g = G(*bits)
+        if g == NOG or g == allg(o != "llcp") or (g["discover"] and o == "llcp"):
+            continue
+        if o == "card" and not g["startup"] and g != G(False, True, True, True):
+            continue
+        pos = OV("dict", g, "keep" if g["startup"] else defsu(o), True, True, True)
+        out.append(pos)
+        if o == "card" and not g["startup"]:
+            continue
+        if g["startup"]:
+            out.append(dict(pos, su="drop"))
+        if g["discover"]:
+            out.append(dict(pos, disc=False))
+        if g["connect"]:
+            out.append(dict(pos, conn=False))
+        if g["release"]:
+            out.append(dict(pos, rel=False))
+    return out
+
+
+def effkept(v):
+    return v["top"] == "dict" and v["su"] == "keep"
+
+
+def plain(v, o):
+    return effkept(v) and v["disc"] and v["conn"] and v["rel"] and v["giv"] in (NOG, allg(o != "llcp"))
+
+
 ENVS = ("nothing", "tag", "tagU", "tagX", "peerT", "peerI", "reader", "readerU", "ioerror", "unsupported")
+DEP_KEYS = ("brs", "acm", "rwt", "lri", "lrt", "miu", "lto", "agf")
+DEP_VALS = dict(brs=(0, 1, 2), acm=(0, 1), rwt=(0, 8, 14), lri=(0, 1, 2, 3), lrt=(0, 1, 2, 3), miu=(128, 248, 2175),
+                lto=(100, 500, 1000), agf=(0, 1))
+NODEP = {k: -1 for k in DEP_KEYS}
+DEP_FORMS = [dict(NODEP), dict(brs=2, acm=0, rwt=8, lri=3, lrt=3, miu=128, lto=500, agf=1),
+             dict(brs=1, acm=1, rwt=14, lri=1, lrt=2, miu=2175, lto=1000, agf=0)] + [
+    dict(NODEP, **{k: v}) for k in DEP_KEYS for v in DEP_VALS[k]]
+
+
+def SF(t, i, v):
+    return dict(tgt=t, iter=i, ival=v)
+
+
+BASE_SF, ABS_SF = SF("match", 1, 0), SF("absent", 0, -1)
+SENSE_FORMS = [BASE_SF, ABS_SF, SF("default", 5, 500), SF("miss", 1, 0), SF("match", 0, -1), SF("absent", 1, 0),
+               SF("default", 2, 1), SF("match", 2, 1), SF("match", 3, 100), SF("miss", 0, -1)]
+BEEP_FORMS = ("absent", "true", "false")
+ROLE_FORMS = ("absent", "none", "initiator", "target")
+
+
+def beep_of(r, rich):
+    if effkept(r) and r["disc"] and r["conn"]:
+        if rich:
+            return BEEP_FORMS if r["giv"]["connect"] else ("absent", "true")
+        return ("absent",) if r["giv"] == NOG else ("true", "false")
+    return ("true",) if r["top"] == "dict" and r["giv"] == allg(True) else ("absent",)
+
+
+def role_of(l, rich):
+    if effkept(l):
+        if rich:
+            return ROLE_FORMS
+        return ("absent",) if l["giv"] == NOG else ("absent", "initiator", "target")
+    return ("absent",)
+
+
+def natural_sf(r):
+    return BASE_SF if r["top"] == "dict" and r["giv"] != NOG else ABS_SF
+
+
+def opt_triples(maxopts=3):
+    out = []
+    for r in variants("rdwr"):
+        for l in variants("llcp"):
+            for c in variants("card"):
+                nd = sum(1 for v in (r, l, c) if v["top"] == "dict")
+                if nd <= maxopts and (nd < 2 or all(v["top"] != "none" for v in (r, l, c))):
+                    out.append((r, l, c))
+    for ng in notgiven():
+        out += [(r, ng, ng) for r in partial("rdwr")]
+        out += [(ng, l, ng) for l in partial("llcp")]
+        out += [(ng, ng, c) for c in partial("card")]
+    return out
+
+
+def is_rich(r, l, c):
+    tops = [v["top"] for v in (r, l, c)]
+    return tops.count("dict") == 1 and len({t for t in tops if t != "dict"}) == 1
 
 
 def grid(kmax, tmax):
-    for r in variants(True):
-        for l in variants(False):
-            for c in variants(True, True):
-                beeps = (False, True) if (r["has"] and r["su"] == "keep" and r["disc"] and r["conn"]
-                                          and not r.get("empty")) else (True,)
-                roles = ("both", "initiator", "target") if (l["has"] and l["su"] == "keep"
-                                                            and not l.get("empty")) else ("both",)
-                for e in ENVS:
-                    ks = (0,) if e in ("nothing", "ioerror", "unsupported", "readerU") else range(kmax + 1)
-                    for b in beeps:
-                        for ro in roles:
-                            for k in ks:
-                                for t in range(tmax + 1):
-                                    yield mkcfg(r, l, c, b, ro, e, k, t)
+    for r, l, c in opt_triples():
+        rich = is_rich(r, l, c)
+        for e in ENVS:
+            ks = (0,) if e in ("nothing", "ioerror", "unsupported", "readerU") else range(kmax + 1)
+            sfs = SENSE_FORMS if rich and plain(r, "rdwr") and e in ("nothing", "tag", "peerT", "unsupported") \
+                else (natural_sf(r),)
+            for b in beep_of(r, rich):
+                for ro in role_of(l, rich):
+                    dps = DEP_FORMS if rich and plain(l, "llcp") and ro == "absent" and e in ("nothing", "peerT", "peerI") \
+                        else (NODEP,)
+                    for k in ks:
+                        for t, nt in [(t, False) for t in range(tmax + 1)] + [(0, True)]:
+                            for sf in sfs:
+                                for dp in dps:
+                                    yield mkcfg(r, l, c, b, ro, e, k, t, nt, sf, dp)
 
 
-def mkcfg(r, l, c, b, ro, e, k, t):
+def mkcfg(r, l, c, b, ro, e, k, t, nt=False, sf=None, dp=None):
     d = dict(zip(OPTS, (r, l, c)))
-    return dict(has={o: d[o]["has"] for o in OPTS}, su={o: d[o]["su"] for o in OPTS},
-                disc={o: d[o]["disc"] for o in OPTS}, conn={o: d[o]["conn"] for o in OPTS},
-                rel={o: d[o]["rel"] for o in OPTS}, empty={o: bool(d[o].get("empty")) for o in OPTS}, beep=b, role=ro, env=e, k=k, termAt=t)
+    return dict(top={o: d[o]["top"] for o in OPTS}, giv={o: dict(d[o]["giv"]) for o in OPTS},
+                su={o: d[o]["su"] for o in OPTS}, disc={o: d[o]["disc"] for o in OPTS},
+                conn={o: d[o]["conn"] for o in OPTS}, rel={o: d[o]["rel"] for o in OPTS},
+                beep=b, role=ro, sf=dict(sf if sf is not None else natural_sf(r)), dep=dict(dp if dp is not None else NODEP),
+                env=e, k=k, termAt=t, noterm=nt)
+
+
+def has(c, o):
+    return c["top"][o] == "dict"
+
+
+def ndict(c):
+    return sum(1 for o in OPTS if has(c, o))
+
+
+def role_eff(c):
+    return "both" if c["role"] in ("absent", "none") else c["role"]
 
 
 def cfg_id(c):
     def ov(o):
-        if not c["has"][o]:
-            return "-"
-        if c["empty"][o]:
+        if not has(c, o):
+            return "-" if c["top"][o] == "absent" else "N"
+        g = c["giv"][o]
+        if not any(g.values()):
             return "{}"
-        if c["su"][o] != "keep":
-            return c["su"][o][0]
-        return "k%d%d%d" % (c["disc"][o], c["conn"][o], c["rel"][o])
-    return "%s.%s.%s|b%d|%s|%s%s%d|t%d" % (ov("rdwr"), ov("llcp"), ov("card"), c["beep"], c["role"], c["env"],
-                                            (c.get("ttype", "") + ("!%(cls)s@%(at)d%(mode)s" % c["fault"] if c.get("fault") else ""))
-                                            if c["env"] in TAG_ENVS else "", c["k"], c["termAt"]) + (
-        "|i%dx%g" % tuple(c["sp"]) if c.get("sp") else "") + ("|r" + c["rtype"] if c.get("rtype") else "")
+        v = c["su"][o][0] if c["su"][o] != "keep" else "k%d%d%d" % (c["disc"][o], c["conn"][o], c["rel"][o])
+        if g != allg(o != "llcp"):
+            v += "~" + "".join(n[0] for n in CBN if g[n])        # only these callback keys are given
+        return v
+    sf, nat = c["sf"], (BASE_SF if has(c, "rdwr") and any(c["giv"]["rdwr"].values()) else ABS_SF)
+    return "%s.%s.%s|b%s|%s|%s%s%d|t%s" % (
+        ov("rdwr"), ov("llcp"), ov("card"), dict(absent="-", true="1", false="0")[c["beep"]], c["role"], c["env"],
+        (c.get("ttype", "") + ("!%(cls)s@%(at)d%(mode)s" % c["fault"] if c.get("fault") else ""))
+        if c["env"] in TAG_ENVS else "", c["k"], "-" if c["noterm"] else c["termAt"]) + (
+        "|s%s,%d,%d" % (sf["tgt"], sf["iter"], sf["ival"]) if sf != nat else "") + (
+        "|d" + ",".join("%s=%d" % (k, c["dep"][k]) for k in DEP_KEYS if c["dep"][k] != -1) if c["dep"] != NODEP else "") + (
+        "|r" + c["rtype"] if c.get("rtype") else "")
 
 
 # ------------------------------------------------------------------------------------------------
@@ -208,11 +348,80 @@ def B(v):
     return "T" if v else "F"
 
 
+class CutCall(BaseException):
+    """raised by the harness inside a connect() call without terminate argument that would never end
+    (not an Exception: nothing in the code under test may swallow it)"""
+
+
+class Hang(BaseException):
+    """a connect() call without terminate argument spins without touching the device"""
+
+
+class EnvTap(object):
+    """what is in the field, plus a record of what it was told during NFC-DEP link activation
+    (the ATR_REQ / PSL_REQ it received, the ATR_RES our listening device was loaded with)"""
+
+    def __init__(self, env):
+        self.env = env
+        self.reset()
+
+    def reset(self):
+        self.atr_req = self.atr_res = None
+        self.psl = 0
+
+    def sense(self, dev, kind, target):
+        return self.env.sense(dev, kind, target)
+
+    def listen(self, dev, kind, target, timeout):
+        if kind == "dep" and getattr(target, "atr_res", None) is not None:
+            self.atr_res = bytes(target.atr_res)
+        return self.env.listen(dev, kind, target, timeout)
+
+    def command(self, dev, data, timeout):
+        if data is not None:
+            d = bytes(data)
+            if d[:1] == b"\xF0":
+                d = d[1:]
+            if d[1:3] == b"\xD4\x00":
+                self.atr_req = d[1:]
+            elif d[1:3] == b"\xD4\x04" and len(d) >= 5:
+                self.psl = (d[4] >> 3) & 7          # DSI of the bit rate selector byte
+        return self.env.command(dev, data, timeout)
+
+    def response(self, dev, data, timeout):
+        return self.env.response(dev, data, timeout)
+
+
+def llcp_params(gb):
+    """MIU and LTO (ms) announced in LLCP general bytes (defaults 128 / 100 when the parameter is not sent)"""
+    miu, lto = 128, 100
+    if gb[:3] != b"Ffm":
+        return -1, -1
+    i = 3
+    while i + 2 <= len(gb):
+        t, n = gb[i], gb[i + 1]
+        v = gb[i + 2:i + 2 + n]
+        if t == 2 and n == 2:
+            miu = (((v[0] << 8) | v[1]) & 0x7FF) + 128
+        elif t == 4 and n == 1:
+            lto = v[0] * 10
+        i += 2 + n
+    return miu, lto
+
+
+NOWIRE = dict(lr=-1, wt=-1, miu=-1, lto=-1, psl=-1, acm=-1)
+CUT_AFTER = 7          # discovery attempts after which a call without terminate argument is abandoned
+HANG_CALLS = 50000     # python calls without a discovery attempt after which such a call counts as spinning
+SENSE_COST = 0.03125   # virtual seconds one driver discovery attempt takes when the sense loop is looked at
+
+
 class ConnectRun(object):
     """one real connect() call for one configuration; records the events Trace_ClfConnect validates"""
+    maxcalls = 0            # most python calls seen between two discovery attempts of a call without terminate argument
 
     def __init__(self, cfg, clock):
         self.cfg = cfg
+        self.giv = cfg["giv"]
         self.ev = []
         self.ncb = 0
         self.polls = 0
@@ -221,26 +430,32 @@ class ConnectRun(object):
         self.in_term = False
         self.activating = False     # inside nfc.tag.activate(): between on-discover and on-connect / the next step
         self.nact = 0               # exchanges (commands and re-senses) of the current activation
+        self.nattempts = 0          # discovery attempts of connect()'s main loop
+        self.ncalls = 0
         self.fault_fired = False
-        self.dev = clfdev.SimDevice(nfc.clf, make_env(cfg["env"], cfg["k"], cfg.get("ttype", "T2"), cfg.get("rtype", "F")), clock)
+        self.tap = EnvTap(make_env(cfg["env"], cfg["k"], cfg.get("ttype", "T2"), cfg.get("rtype", "F")))
+        self.dev = clfdev.SimDevice(nfc.clf, self.tap, clock)
         self.dev.observer = self.on_driver
         if cfg.get("fault"):
             self.dev.fault_hook = self.fault
         self.clock = clock
         self.sleep0 = len(clock.sleep_log)
-        if cfg.get("sp"):
-            self.dev.sense_cost = 0.03125           # a discovery attempt takes (virtual) time: rounds can outlast `interval`
+        # a discovery attempt takes (virtual) time when the sense loop is not the plain one: rounds can outlast `interval`
+        self.cost = SENSE_COST if has(cfg, "rdwr") and cfg["sf"] != BASE_SF else 0.0
+        self.dev.sense_cost = self.cost
         self.clf = nfc.clf.ContactlessFrontend()
         self.clf.device = self.dev
         self.clf.sense = self.sense
         self.clf.listen = self.listen
 
-    def emit(self, a, o="", r=""):
+    def emit(self, a, o="", r="", **kw):
         t = self.clf.target
-        self.ev.append(dict(a=a, o=o, r=r, polls=self.polls, ncb=self.ncb, led=bool(self.dev.led),
-                            field=bool(self.dev.field),
-                            minpause=int(round(min(self.clock.sleep_log[self.sleep0:] + [0.0]) * 1e6)),
-                            target="none" if t is None else ("remote" if isinstance(t, nfc.clf.RemoteTarget) else "local")))
+        rec = dict(a=a, o=o, r=r, polls=self.polls, ncb=self.ncb, led=bool(self.dev.led),
+                   field=bool(self.dev.field),
+                   minpause=int(round(min(self.clock.sleep_log[self.sleep0:] + [0.0]) * 1e6)),
+                   target="none" if t is None else ("remote" if isinstance(t, nfc.clf.RemoteTarget) else "local"))
+        rec.update(kw)
+        self.ev.append(rec)
 
     def cb(self, name, o, r):
         self.ncb += 1
@@ -266,6 +481,24 @@ class ConnectRun(object):
             return FAULTS[f["cls"]]("injected at activation exchange %d" % self.nact)
         return None
 
+    def attempt(self):
+        """a discovery attempt of connect()'s main loop begins (without terminate argument: the place to give up)"""
+        self.ncalls = 0
+        if self.cfg["noterm"]:
+            self.nattempts += 1
+            if self.nattempts > CUT_AFTER:
+                self.emit("Cut")
+                raise CutCall()
+
+    def profile(self, frame, event, arg):
+        if event == "call":
+            self.ncalls += 1
+            if self.ncalls > ConnectRun.maxcalls:
+                ConnectRun.maxcalls = self.ncalls
+            if self.ncalls > HANG_CALLS:
+                sys.setprofile(None)
+                raise Hang()
+
     # --- observation points -----------------------------------------------------------------------
     def terminate(self):
         self.set_activating(False)
@@ -277,35 +510,49 @@ class ConnectRun(object):
         return v
 
     def sense(self, *targets, **options):
-        if self.in_llc or self.activating:        # a tag module re-selects the tag during activation
+        # connect()'s own discovery attempt comes from nfc.clf; a tag module re-selects the tag during activation and
+        # nfc.dep searches the peer through the same method
+        if sys._getframe(1).f_globals.get("__name__") != "nfc.clf":
             return nfc.clf.ContactlessFrontend.sense(self.clf, *targets, **options)
+        self.set_activating(False)
+        self.attempt()
+        self.phase = ""
+        n0, s0 = len(self.dev.log), len(self.clock.sleep_log)
+
+        def loop():
+            return dict(att=sum(1 for x in self.dev.log[n0:] if x[0].startswith("sense_")),
+                        pauses=[int(round(x * 1e6)) for x in self.clock.sleep_log[s0:]], cost=int(round(self.cost * 1e6)))
         try:
             t = nfc.clf.ContactlessFrontend.sense(self.clf, *targets, **options)
         except IOError:
-            self.emit("Sense", r="ioerror")
+            self.emit("Sense", r="ioerror", **loop())
             raise
         except nfc.clf.UnsupportedTargetError:
-            self.emit("Sense", r="unsupported")
+            self.emit("Sense", r="unsupported", **loop())
             raise
         if t is None:
-            self.emit("Sense", r="none")
+            self.emit("Sense", r="none", **loop())
         else:
             isdep = bool(t.sel_res and t.sel_res[0] & 0x40)
-            self.emit("Sense", r="dep" if isdep else "tag")
-            if self.cfg["empty"]["rdwr"] and not isdep:
+            self.emit("Sense", r="dep" if isdep else "tag", **loop())
+            if not self.giv["rdwr"]["discover"] and not isdep:
                 self.set_activating(True)          # the default on-discover accepts every tag: activation follows
         return t
 
     def listen(self, target, timeout):
         self.set_activating(False)
-        if self.in_llc:
+        if sys._getframe(1).f_globals.get("__name__") != "nfc.clf":       # nfc.dep listens for an initiator
             return nfc.clf.ContactlessFrontend.listen(self.clf, target, timeout)
+        self.attempt()
+        self.phase = ""
         try:
             t = nfc.clf.ContactlessFrontend.listen(self.clf, target, timeout)
         except (IOError, nfc.clf.UnsupportedTargetError):
             self.emit("Listen", r="error")
             raise
         self.emit("Listen", r="none" if t is None else "reader")
+        if t is not None and not self.giv["card"]["discover"] and not self.giv["card"]["connect"]:
+            self.phase = "serve"                   # default on-discover / on-connect: the command loop follows
         return t
 
     def on_driver(self, phase, method, info):
@@ -313,12 +560,12 @@ class ConnectRun(object):
             return
         status = self.dev.log[-1][2]
         if method == "turn_on_led_and_buzzer":
-            if self.cfg["empty"]["rdwr"]:
+            if not self.giv["rdwr"]["connect"]:
                 self.set_activating(False)
                 self.phase = "presence"            # default on-connect returned True (no recorder to tell us)
             self.emit("Led", r="T")
         elif method == "turn_off_led_and_buzzer":
-            if self.cfg["empty"]["rdwr"]:
+            if not self.giv["rdwr"]["release"]:
                 self.phase = ""
             self.emit("Led", r="F")
         elif method == "send_cmd_recv_rsp" and self.phase == "presence":
@@ -330,7 +577,8 @@ class ConnectRun(object):
             self.emit("Serve", r=B(status == "ok"))
 
     def instrument_llc_class(self):
-        """llcp={} : connect() creates the controller itself and no callback hands it out - observe through the class"""
+        """no 'on-startup' for llcp: connect() creates the controller itself and no callback hands it out before the
+        first activation - observe through the class"""
         LLC = nfc.llcp.llc.LogicalLinkController
         saved = (LLC.activate, LLC.exchange, LLC.terminate)
 
@@ -353,21 +601,42 @@ class ConnectRun(object):
             LLC.activate, LLC.exchange, LLC.terminate = saved
         return restore
 
+    def wire(self, role, n0):
+        """what the peer was told during this link activation"""
+        w = dict(NOWIRE)
+        if role == "target":
+            r = self.tap.atr_res
+            if r is not None and len(r) >= 17:
+                w["wt"], w["lr"] = r[15] & 0x0F, (r[16] >> 4) & 3
+                w["miu"], w["lto"] = llcp_params(r[17:])
+        else:
+            w["acm"] = int(any(x[0] == "sense_dep" for x in self.dev.log[n0:]))
+            w["psl"] = self.tap.psl
+            r = self.tap.atr_req
+            if r is not None and len(r) >= 16:
+                w["lr"] = (r[15] >> 4) & 3
+                w["miu"], w["lto"] = llcp_params(r[16:])
+        return w
+
     def instrument_llc(self, llc):
         orig_activate, orig_exchange, orig_terminate = llc.activate, llc.exchange, llc.terminate
 
         def activate(mac, **kw):
             role = "initiator" if isinstance(mac, nfc.dep.Initiator) else "target"
             self.set_activating(False)
+            self.attempt()
+            self.phase = ""
             self.in_llc = True
+            self.tap.reset()
+            n0 = len(self.dev.log)
             try:
                 ok = orig_activate(mac=mac, **kw)
             except (IOError, nfc.clf.UnsupportedTargetError):
-                self.emit("LlcAct", role, "error")
+                self.emit("LlcAct", role, "error", w=self.wire(role, n0))
                 raise
             finally:
                 self.in_llc = False
-            self.emit("LlcAct", role, "ok" if ok else "no")
+            self.emit("LlcAct", role, "ok" if ok else "no", w=self.wire(role, n0))
             return ok
 
         def exchange(send_pdu, timeout):
@@ -386,9 +655,19 @@ class ConnectRun(object):
         llc.activate, llc.exchange, llc.terminate = activate, exchange, terminate
 
     # --- option dictionaries -------------------------------------------------------------------------
-    def options(self):
+    def technologies(self):
+        """the technology of what is in the field, and one that is not"""
         c = self.cfg
-        kw = {"terminate": self.terminate}
+        match = TAG_BRTY.get(c.get("ttype"), "106A") if c["env"] in TAG_ENVS else "106A"
+        return match, ("106B" if match != "106B" else "212F")
+
+    def options(self):
+        """the keyword arguments exactly as the configuration writes them: a keyword / key that is "absent" is not
+        there, "none" is None, everything else is the value"""
+        c = self.cfg
+        kw = {}
+        if not c["noterm"]:
+            kw["terminate"] = self.terminate
 
         def recorder(name, o, table, after=None):
             def f(obj):
@@ -413,30 +692,56 @@ class ConnectRun(object):
                 return v
             return f
         for o in OPTS:
-            if c["empty"][o]:
-                kw[o] = {}
-        if c["has"]["rdwr"] and not c["empty"]["rdwr"]:
+            if c["top"][o] == "none":
+                kw[o] = None
+        if has(c, "rdwr"):
+            g, sf, d = self.giv["rdwr"], c["sf"], {}
+
             def su_rdwr(targets):
                 self.cb("Startup", "rdwr", c["su"]["rdwr"])
                 return {"keep": targets, "drop": [], "wrong": ["106A"]}[c["su"]["rdwr"]]
-            kw["rdwr"] = {"targets": [TAG_BRTY.get(c.get("ttype"), "106A") if c["env"] in TAG_ENVS else "106A"],
-                          "iterations": c.get("sp", (1, 0.0))[0], "interval": c.get("sp", (1, 0.0))[1],
-                          "on-startup": su_rdwr,
-                          "on-discover": recorder("Discover", "rdwr", c["disc"], self.set_activating),
-                          "on-connect": recorder("Connect", "rdwr", c["conn"], phase_setter("presence")),
-                          "on-release": release("rdwr"), "beep-on-connect": c["beep"]}
-        if c["has"]["llcp"] and not c["empty"]["llcp"]:
+            match, miss = self.technologies()
+            if sf["tgt"] != "absent":
+                d["targets"] = {"default": ("106A", "106B", "212F"), "match": [match], "miss": [miss]}[sf["tgt"]]
+            if sf["iter"] != 0:
+                d["iterations"] = sf["iter"]
+            if sf["ival"] != -1:
+                d["interval"] = sf["ival"] / 1000.0
+            if g["startup"]:
+                d["on-startup"] = su_rdwr
+            if g["discover"]:
+                d["on-discover"] = recorder("Discover", "rdwr", c["disc"], self.set_activating)
+            if g["connect"]:
+                d["on-connect"] = recorder("Connect", "rdwr", c["conn"], phase_setter("presence"))
+            if g["release"]:
+                d["on-release"] = release("rdwr")
+            if c["beep"] != "absent":
+                d["beep-on-connect"] = c["beep"] == "true"
+            kw["rdwr"] = d
+        if has(c, "llcp"):
+            g, d = self.giv["llcp"], {}
+
             def su_llcp(llc):
                 self.cb("Startup", "llcp", c["su"]["llcp"])
                 if c["su"]["llcp"] == "keep":
                     self.instrument_llc(llc)
                     return llc
                 return None if c["su"]["llcp"] == "drop" else True
-            kw["llcp"] = {"on-startup": su_llcp, "on-connect": recorder("Connect", "llcp", c["conn"]),
-                          "on-release": release("llcp")}
-            if c["role"] != "both":
-                kw["llcp"]["role"] = c["role"]
-        if c["has"]["card"] and not c["empty"]["card"]:
+            if g["startup"]:
+                d["on-startup"] = su_llcp
+            if g["connect"]:
+                d["on-connect"] = recorder("Connect", "llcp", c["conn"])
+            if g["release"]:
+                d["on-release"] = release("llcp")
+            if c["role"] != "absent":
+                d["role"] = None if c["role"] == "none" else c["role"]
+            for k in DEP_KEYS:
+                if c["dep"][k] != -1:
+                    d[k] = bool(c["dep"][k]) if k in ("acm", "agf") else c["dep"][k]
+            kw["llcp"] = d
+        if has(c, "card"):
+            g, d = self.giv["card"], {}
+
             def su_card(target):
                 self.cb("Startup", "card", c["su"]["card"])
                 if c["su"]["card"] == "keep":
@@ -455,23 +760,41 @@ class ConnectRun(object):
                         target.brty = "212F"
                     return target
                 return None if c["su"]["card"] == "drop" else "212F"
-            kw["card"] = {"on-startup": su_card, "on-discover": recorder("Discover", "card", c["disc"]),
-                          "on-connect": recorder("Connect", "card", c["conn"], phase_setter("serve")),
-                          "on-release": release("card")}
+
+            def serve_if_default_connect(v):
+                if v and not g["connect"]:
+                    self.phase = "serve"           # the default on-connect returns True: the command loop follows
+            if g["startup"]:
+                d["on-startup"] = su_card
+            if g["discover"]:
+                d["on-discover"] = recorder("Discover", "card", c["disc"], serve_if_default_connect)
+            if g["connect"]:
+                d["on-connect"] = recorder("Connect", "card", c["conn"], phase_setter("serve"))
+            if g["release"]:
+                d["on-release"] = release("card")
+            kw["card"] = d
         return kw
 
     def run(self):
         kw = self.options()
-        restore = self.instrument_llc_class() if self.cfg["empty"]["llcp"] else (lambda: None)
+        restore = self.instrument_llc_class() if has(self.cfg, "llcp") and not self.giv["llcp"]["startup"] else (lambda: None)
         self.emit("Begin")
+        if self.cfg["noterm"]:
+            sys.setprofile(self.profile)
         try:
             r = self.clf.connect(**kw)
         except HarnessError:
             raise
+        except CutCall:
+            return self.trace()
+        except Hang:
+            self.emit("Hang")
+            return self.trace()
         except BaseException as e:                 # noqa: the contract allows no exception here
             self.emit("Raise", r=type(e).__name__)
             return self.trace()
         finally:
+            sys.setprofile(None)
             restore()
         if r is None:
             v = "None"
@@ -775,6 +1098,30 @@ def sense_sessions(tier, seed, clock):
 
 
 # ------------------------------------------------------------------------------------------------
+def written(c, pc, got=""):
+    """the unusual way of writing the arguments that the step the model is at depends on (part of a violation key:
+    the role at a link activation, the targets at a discovery attempt, a defaulted callback at the step where it is
+    called, keyword=None at start-up, the missing terminate argument at a poll)"""
+    w = []
+    if pc == "llcp_act" and has(c, "llcp") and c["role"] == "none":
+        w.append("llcp.role=None")
+    if pc == "rdwr_sense" and has(c, "rdwr") and c["sf"]["tgt"] in ("absent", "default", "miss"):
+        w.append("rdwr.targets=" + c["sf"]["tgt"])
+    if pc == "led_on" and has(c, "rdwr") and c["beep"] == "absent" and any(c["giv"]["rdwr"].values()):
+        w.append("rdwr.beep-on-connect=absent")
+    o = {"rdwr": "rdwr", "llcp": "llcp", "card": "card"}.get(pc[:4])
+    n = {"disc": "discover", "conn": "connect", "rel": "release"}.get(pc[5:])
+    if pc == "startup":
+        w += ["%s.on-startup=absent" % x for x in OPTS if has(c, x) and not c["giv"][x]["startup"] and any(c["giv"][x].values())]
+    elif o and n and has(c, o) and not c["giv"][o][n] and any(c["giv"][o].values()):
+        w.append("%s.on-%s=absent" % (o, n))
+    if pc in ("start", "startup") and any(v == "none" for v in c["top"].values()):
+        w.append("keyword=None")
+    if c["noterm"] and (pc in ("poll", "pres_poll", "run_poll", "serve_poll") or got in ("Hang", "Cut")):
+        w.append("no-terminate")
+    return (":" + ",".join(w)) if w else ""
+
+
 def classify(tr, line, act, why, what):
     """canonical key: the failing clause and the situation (event, option, environment class), never a seed"""
     kind = why[0] if why else "?"
@@ -782,10 +1129,17 @@ def classify(tr, line, act, why, what):
     if what == "connect":
         c = tr["const"]
         where = "%s%s" % (act, (":" + ev.get("o")) if ev.get("o") else "")
+        if kind == "inv" and act == "Raise":      # an exception out of connect(): its class and the way of writing concerned
+            w = []
+            if "none" in c["top"].values() and (why[2] if len(why) > 2 else "") in ("start", "startup", "ret"):
+                w.append("keyword=None")           # raised during start-up
+            if c["noterm"]:
+                w.append("no-terminate")
+            return "connect:inv:%s@Raise:%s%s" % (",".join(why[1]), ev.get("r", ""), (":" + ",".join(w)) if w else "")
         if kind == "inv":
             return "connect:inv:%s@%s" % (",".join(why[1]), where)
         if kind == "guard" and isinstance(why[1], dict):
-            return "connect:guard:model-at=%s:got=%s" % (why[1].get("pc", "?"), where)
+            return "connect:guard:model-at=%s:got=%s%s" % (why[1].get("pc", "?"), where, written(c, why[1].get("pc", ""), act))
         return "connect:%s@%s:%s:got=%s" % (kind, where, c["env"], ev.get("r", ""))
     if kind == "inv":
         if "ArgCheck" in why[1]:                  # one defect (late argument validation) shows in several clauses
@@ -817,6 +1171,95 @@ def selftests_connect(tr):
     return out
 
 
+def is_partial(c):
+    return any(has(c, o) and c["giv"][o] not in (NOG, allg(o != "llcp")) for o in OPTS)
+
+
+def natural_forms(c):
+    nat = BASE_SF if has(c, "rdwr") and any(c["giv"]["rdwr"].values()) else ABS_SF
+    return c["sf"] == nat and c["dep"] == NODEP
+
+
+def form_class(c):
+    """which of the written forms of a call with at most one option dictionary differ from the plain way of writing it
+    (keywords that are not used absent, a terminate argument, role absent or a role name, beep-on-connect written
+    with the callbacks and absent without)"""
+    if is_partial(c):
+        return "partial"
+    if not natural_forms(c):
+        return "sf" if c["dep"] == NODEP else "dep"
+    dev = 0
+    if any(c["top"][o] == "none" for o in OPTS):
+        dev += 1
+    if c["noterm"]:
+        dev += 1
+    if c["role"] == "none":
+        dev += 1
+    if has(c, "rdwr") and c["su"]["rdwr"] == "keep" and c["disc"]["rdwr"] and c["conn"]["rdwr"]:
+        if (c["giv"]["rdwr"] == NOG) != (c["beep"] == "absent"):
+            dev += 1
+    return "form" if dev else "natural"
+
+
+def quick_select(single):
+    """quick tier, calls with at most one option dictionary.  Plainly written calls: the whole product (callback
+    results x environment x budget x terminate index).  Every other way of writing the arguments: every
+    combination of (callback keys given and their results, the written form in question, environment) at least once,
+    the remaining dimensions (budget, terminate index / no terminate argument, the other forms) rotating"""
+    out, groups = [], {}
+    for c in single:
+        k = form_class(c)
+        if k == "natural":
+            out.append(c)
+            continue
+        o = ([x for x in OPTS if has(c, x)] + [None])[0]
+        sig = (o, json.dumps(c["giv"][o], sort_keys=True), c["su"][o], c["disc"][o], c["conn"][o], c["rel"][o]) if o else ()
+        if k == "partial":
+            key, n = (k, sig, c["env"]), 2
+        elif k == "sf":
+            key, n = (k, sig, json.dumps(c["sf"], sort_keys=True), c["env"]), 3
+        elif k == "dep":
+            key, n = (k, sig, json.dumps(c["dep"], sort_keys=True), c["env"]), 3
+        else:
+            key, n = (k, sig, c["role"], c["beep"], tuple(c["top"][x] for x in OPTS), c["noterm"], c["env"]), 1
+        groups.setdefault(key, (n, []))[1].append(c)
+    for i, (n, lst) in enumerate(groups.values()):
+        step = max(1, len(lst) // n)
+        for j in sorted({(i + j * step) % len(lst) for j in range(n)}):
+            out.append(lst[j])
+    return out
+
+
+def free_forms(rnd, multi, num):
+    """calls with several option dictionaries whose written forms are drawn freely (canonical configurations outside
+    the model checker's grid)"""
+    out = []
+    for c in rnd.sample(multi, min(num, len(multi))):
+        c = json.loads(json.dumps(c))
+        for o in OPTS:
+            if not has(c, o):
+                c["top"][o] = rnd.choice(("absent", "none"))
+        for o in OPTS:                       # leave out callback keys whose value is what the default returns
+            if has(c, o) and c["giv"][o] != NOG:
+                for n, dflt in (("startup", c["su"][o] == defsu(o)), ("discover", c["disc"][o]), ("connect", c["conn"][o]),
+                                ("release", c["rel"][o])):
+                    if c["giv"][o][n] and dflt and rnd.random() < 0.3 and not (o == "rdwr" and n == "connect" and c["beep"] == "false"):
+                        c["giv"][o][n] = False
+        if has(c, "llcp") and c["su"]["llcp"] == "keep":
+            c["role"] = rnd.choice(ROLE_FORMS)
+            if rnd.random() < 0.7:
+                c["dep"] = dict(rnd.choice(DEP_FORMS))
+                for k in rnd.sample(DEP_KEYS, rnd.randint(0, 3)):
+                    c["dep"][k] = rnd.choice((-1,) + DEP_VALS[k])
+        if has(c, "rdwr") and c["su"]["rdwr"] == "keep" and c["env"] != "tagX":
+            c["sf"] = SF(rnd.choice(("absent", "default", "match", "miss")), rnd.choice((0, 1, 2, 3, 5)),
+                         rnd.choice((-1, 0, 1, 100, 500)))
+            if c["disc"]["rdwr"] and c["conn"]["rdwr"]:
+                c["beep"] = rnd.choice(BEEP_FORMS if c["giv"]["rdwr"]["connect"] else ("absent", "true"))
+        out.append(c)
+    return out
+
+
 class McJob(object):
     """model checking + reachability witnesses of one module, started in the background (the JVMs run next to
     each other and next to the real executions); results are collected in a fixed order"""
@@ -845,20 +1288,77 @@ class McJob(object):
 
 W_CONNECT = ["W_RetTrue", "W_RetObj", "W_RetFalse", "W_RetNoneNoOpt", "W_TermInPresence", "W_ReleaseFalseLoops",
              "W_TagVanished", "W_PeerReleased", "W_ReaderLeft", "W_NotEmulatable"]
+# the written forms: reached in the model (thorough tier: TLC on the grid of the calls with one option dictionary) and
+# by accepted traces of the real frontend (both tiers, form_witnesses)
+W_FORMS = ["W_RoleNoneTarget", "W_RoleNoneInitiator", "W_NoTermTrue", "W_NoneKeyword", "W_TargetsMiss", "W_DefaultRelease",
+           "W_DefaultStartupKeeps", "W_LinkParams", "W_DefaultLoop"]
+
+
+def form_witnesses(traces, verdicts):
+    """how many ACCEPTED traces of the real frontend show each written form doing what it stands for (an accepted
+    trace is a behaviour of the specification: these are reachability witnesses for model and binding at once)"""
+    n = dict.fromkeys(["role=None activated as target", "role=None activated as initiator", "no terminate: returned True",
+                       "no terminate: abandoned by the harness", "keyword=None: activation", "targets miss: tag never found",
+                       "on-release defaulted: True", "on-startup defaulted: llc returned", "link parameters: activated",
+                       "targets/iterations/interval absent: 5 rounds x 3 targets",
+                       "targets/iterations/interval = written defaults: 5 rounds x 3 targets",
+                       "card on-connect defaulted: served"], 0)
+    for t in traces:
+        if verdicts[t["id"]][0] != "ACCEPT":
+            continue
+        c, ev = t["const"], t["ev"]
+        acts = {(e["a"], e["o"], e["r"]) for e in ev}
+        ret = ev[-1]["r"] if ev[-1]["a"] == "Return" else None
+        if c["role"] == "none":
+            n["role=None activated as target"] += ("LlcAct", "target", "ok") in acts
+            n["role=None activated as initiator"] += ("LlcAct", "initiator", "ok") in acts
+        if c["noterm"]:
+            n["no terminate: returned True"] += ret == "True"
+            n["no terminate: abandoned by the harness"] += ev[-1]["a"] == "Cut"
+        if "none" in c["top"].values():
+            n["keyword=None: activation"] += ret in ("True", "tag", "llc", "emu")
+        if c["sf"]["tgt"] == "miss" and c["env"] == "tag":
+            n["targets miss: tag never found"] += sum(1 for e in ev if e["a"] == "Sense" and e["r"] == "none") >= 2
+        if has(c, "rdwr") and c["giv"]["rdwr"]["connect"] and not c["giv"]["rdwr"]["release"]:
+            n["on-release defaulted: True"] += ret == "True"
+        if has(c, "llcp") and c["giv"]["llcp"]["connect"] and not c["giv"]["llcp"]["startup"]:
+            n["on-startup defaulted: llc returned"] += ret == "llc"
+        if c["dep"] != NODEP and c["dep"] != DEP_FORMS[1]:
+            n["link parameters: activated"] += any(a[0] == "LlcAct" and a[2] == "ok" for a in acts)
+        if has(c, "rdwr"):
+            full_loop = any(e["a"] == "Sense" and e["att"] == 15 and len(e["pauses"]) == 4 for e in ev)
+            n["targets/iterations/interval absent: 5 rounds x 3 targets"] += full_loop and c["sf"] == ABS_SF
+            n["targets/iterations/interval = written defaults: 5 rounds x 3 targets"] += full_loop and c["sf"] == SF("default", 5, 500)
+        if has(c, "card") and c["giv"]["card"]["startup"] and not c["giv"]["card"]["connect"]:
+            n["card on-connect defaulted: served"] += any(e["a"] == "Serve" for e in ev)
+    return {k: int(v) for k, v in n.items()}
 W_SENSE = ["W_BadArgAfterValid", "W_Paused", "W_NoPauseLongCycle", "W_Second", "W_RaiseUnsupported", "W_IgnoredUnsupported", "W_StaleDropped", "W_ValueError",
            "W_NoneMuted", "W_ExchangeNothing", "W_ListenRaisedAfterCapture", "W_SenseRaisedAfterCapture"]
 
 
+def tick(label, t0=[None]):
+    """phase timing on stderr when C18_TIMING is set"""
+    import time
+    now = time.time()
+    if os.environ.get("C18_TIMING"):
+        sys.stderr.write("[c18 %6.1fs] %s\n" % (now - (t0[0] or now), label))
+    if t0[0] is None:
+        t0[0] = now
+
+
 def run(tier, seed):
+    tick("start")
     ck = check.Check(PID, tier, seed, "model_checking")
     quick = tier == "quick"
     kmax, tmax = (1, 3) if quick else (2, 6)
 
     # 1. exhaustive model checking of both specs (in the background, collected below in a fixed order)
     import concurrent.futures as cf
-    pool = cf.ThreadPoolExecutor(max_workers=6)
+    pool = cf.ThreadPoolExecutor(max_workers=10)
     j1 = McJob(pool, "ClfConnect.tla", "MC_ClfConnect.cfg" if quick else "MC_ClfConnect_thorough.cfg", W_CONNECT,
                "MC_ClfConnect_reach.cfg", 1500 if quick else 2400)
+    jf = None if quick else pool.submit(tlc.witnesses, "ClfConnect.tla", "MC_ClfConnect_reach_forms.cfg",
+                                        PID + "/ClfConnect_reach_forms", W_FORMS, timeout=2400, workers=2)
     j2 = McJob(pool, "ClfSense.tla", "MC_ClfSense.cfg" if quick else "MC_ClfSense_thorough.cfg", W_SENSE,
                "MC_ClfSense_reach.cfg", 1200 if quick else 1800, workers=8)
     j3 = McJob(pool, "ClfSense.tla", "MC_ClfSense_pause.cfg", None, None, 1200, workers=4)
@@ -867,38 +1367,42 @@ def run(tier, seed):
     # 2. the grid on the real frontend
     rnd = random.Random(seed)
     if quick:
-        single = [c for c in full if sum(1 for o in OPTS if c["has"][o]) <= 1]
-        multi = [c for c in full if sum(1 for o in OPTS if c["has"][o]) > 1]
+        multi = [c for c in full if ndict(c) > 1]
         rnd.shuffle(multi)
-        todo = single + multi[:1600]
+        todo = quick_select([c for c in full if ndict(c) <= 1]) + multi[:1300]
     else:
         todo = list(full)
         # real constants beyond the scaled model: longer budgets and later terminate indexes
         for _ in range(3000):
             c = dict(rnd.choice(full))
             c["k"] = 0 if c["env"] in ("nothing", "ioerror", "unsupported", "readerU") else rnd.randint(0, 9)
-            c["termAt"] = rnd.randint(0, 25)
+            c["termAt"] = 0 if c["noterm"] else rnd.randint(0, 25)
             todo.append(c)
+    # the written forms the model enumerates for one option alone, combined with the other options (any canonical
+    # configuration is a legal trace constant): seeded
+    todo += free_forms(rnd, [c for c in full if ndict(c) > 1], 500 if quick else 6000)
     # "tag of each type": the rdwr branch runs against Type 1 / 2 / 2 (NXP, vendor probing) / 3 / 4A / 4B tags (one type
     # per configuration, rotating; thorough: all for the configurations with rdwr alone).  Environment tagX: every
     # CommunicationError subclass at every exchange position of the activation, once or persistently (rotating
     # over the grid, plus a complete sweep over all types x faults for the rdwr-only configurations below).
     types, combos = sorted(TAG_TYPES), fault_combos()
     typed, n = [], 0
-    # (a disturbed activation is not combined with rdwr={}: without callbacks its outcome is not observable)
-    todo = [c for c in todo if not (c["env"] == "tagX" and c["empty"]["rdwr"])]
+    # (a disturbed activation is only run with on-discover and on-connect given and with a terminate argument: its
+    # outcome is read off the next event)
+    todo = [c for c in todo if not (c["env"] == "tagX" and has(c, "rdwr") and c["su"]["rdwr"] == "keep" and
+                                    (c["noterm"] or not c["giv"]["rdwr"]["discover"] or not c["giv"]["rdwr"]["connect"]))]
     # what the reader's discovery looks like when it cannot be emulated (a DEP activation only without an llcp option,
     # which would take it for a peer)
     nr = 0
     for i, c in enumerate(todo):
         if c["env"] == "readerU":
             nr += 1
-            rts = RTYPES if not c["has"]["llcp"] else RTYPES[:3]
+            rts = RTYPES if not has(c, "llcp") else RTYPES[:3]
             todo[i] = dict(c, rtype=rts[nr % len(rts)])
     for c in todo:
-        if c["env"] in TAG_ENVS and c["has"]["rdwr"] and c["su"]["rdwr"] == "keep":
+        if c["env"] in TAG_ENVS and has(c, "rdwr") and c["su"]["rdwr"] == "keep":
             n += 1
-            one = quick or sum(1 for o in OPTS if c["has"][o]) > 1
+            one = quick or ndict(c) > 1
             for tt in ((types[n % len(types)],) if one else types):
                 c2 = dict(c, ttype=tt)
                 if c["env"] == "tagX":
@@ -909,17 +1413,17 @@ def run(tier, seed):
         else:
             typed.append(c)
     # iterations x interval of the rdwr sense loop (rounds take 31 ms of virtual time per target)
-    sps = [(i, v) for i in (1, 2, 3, 5) for v in (0.0, 0.001, 0.1)]
+    sps = [(i, v) for i in (1, 2, 3, 5) for v in (0, 1, 100)]
     for n, c in enumerate(typed):
-        if c["has"]["rdwr"] and c["su"]["rdwr"] == "keep" and n % 2 and not c["empty"]["rdwr"]:
-            c["sp"] = sps[(n // 2) % len(sps)]
-    absent = variants(True)[0]
-    bases = [v for v in variants(True) if v["has"] and v["su"] == "keep" and v["disc"] and not v.get("empty")]
+        if has(c, "rdwr") and c["su"]["rdwr"] == "keep" and n % 2 and c["sf"] == BASE_SF:
+            typed[n] = dict(c, sf=SF("match", *sps[(n // 2) % len(sps)]))
+    absent = notgiven()[0]
+    bases = [v for v in kept(allg(True)) if v["disc"]]
     for r in (bases if not quick else [b for b in bases if b["rel"]]):
         for k, t in (((1, 3),) if quick else ((0, 2), (1, 3), (2, 6))):
             for tt in types:
                 for f in combos:
-                    typed.append(dict(mkcfg(r, absent, absent, True, "both", "tagX", k, t), ttype=tt, fault=f))
+                    typed.append(dict(mkcfg(r, absent, absent, "true", "absent", "tagX", k, t), ttype=tt, fault=f))
     todo = typed
     traces, seen = [], set()
     with Timeshift() as ts:
@@ -929,9 +1433,26 @@ def run(tier, seed):
                 continue
             seen.add(i)
             traces.append(run_connect(c, ts.clock))
+        tick("connect runs done (%d)" % len(traces))
+        # the self-test must not depend on what the code under test did: fall back to any trace
+        good = next((t for t in traces if any(e["a"] == "Release" for e in t["ev"]) and t["ev"][-1]["r"] == "True"), traces[0])
+        self_t = selftests_connect(good)
+        if self_t[0]["ev"] == good["ev"]:
+            self_t[0]["ev"][-1]["a"] = "Bogus"
+        if self_t[1]["ev"] == good["ev"]:
+            del self_t[1]["ev"][0]
+        # (validated next to the model checking runs; collected below)
+        fv = pool.submit(tlc.validate_traces, "Trace_ClfConnect.tla", "Trace_ClfConnect.cfg", PID + "/trc", traces + self_t,
+                         shards=16, timeout=1800 if quick else 3000)
         sessions, maxlen = sense_sessions(tier, seed, ts.clock)
         straces = [s.run() for s in sessions]
+    tick("sense sessions done")
     r1 = j1.result(ck)
+    if jf is not None:
+        hit, _ = jf.result()
+        if set(W_FORMS) - hit:
+            raise tlc.TLCError("vacuous model ClfConnect: form witnesses not reached: %s" % sorted(set(W_FORMS) - hit))
+    tick("ClfConnect model checked")
     m = re.search(r"Finished computing initial states: (\d+) distinct", r1.out)
     ninit = int(m.group(1)) if m else -1
     if ninit != len(full) or len({cfg_id(c) for c in full}) != len(full):
@@ -939,16 +1460,10 @@ def run(tier, seed):
     ck.cover(connect_configurations=len(full), mc_depth_connect=r1.depth)
     r2 = j2.result(ck)
     j3.result(ck, "ClfSense(pauses)")
+    tick("ClfSense model checked")
+    verdicts, st = fv.result()
     pool.shutdown()
-    # the self-test must not depend on what the code under test did: fall back to any trace
-    good = next((t for t in traces if any(e["a"] == "Release" for e in t["ev"]) and t["ev"][-1]["r"] == "True"), traces[0])
-    self_t = selftests_connect(good)
-    if self_t[0]["ev"] == good["ev"]:
-        self_t[0]["ev"][-1]["a"] = "Bogus"
-    if self_t[1]["ev"] == good["ev"]:
-        del self_t[1]["ev"][0]
-    verdicts, st = tlc.validate_traces("Trace_ClfConnect.tla", "Trace_ClfConnect.cfg", PID + "/trc", traces + self_t,
-                                       shards=16, timeout=1800 if quick else 3000)
+    tick("connect traces validated")
     for t in self_t:
         if verdicts[t["id"]][0] == "ACCEPT":
             raise tlc.TLCError("binding vacuous: %s accepted" % t["id"])
@@ -965,6 +1480,11 @@ def run(tier, seed):
             [(e["a"], e["o"], e["r"]) for e in tr["ev"][:v[1]] if e["a"] in ("Startup", "Discover", "Connect", "Release")]),
             replay=dict(kind="connect", cfg=tr["const"]))
     ck.cover(traces_validated_against_impl=acc, trace_events=sum(len(t["ev"]) for t in traces), trace_states=st["states"])
+    # the written forms are not vacuous: accepted traces in which each of them does what it stands for
+    fw = form_witnesses(traces, verdicts)
+    if not ck.found and min(fw.values()) == 0:
+        raise tlc.TLCError("written forms vacuous: no accepted trace for %s" % sorted(k for k, v in fw.items() if not v))
+    ck.cover(written_forms=fw, noterm_max_calls_between_attempts=ConnectRun.maxcalls)
     # fault injection is not vacuous: faults fired inside activations, some activations were given up, others recovered
     fx = [t for t in traces if t["const"].get("fault")]
     fired = [t for t in fx if t.get("fired")]
@@ -1001,6 +1521,7 @@ def run(tier, seed):
     bad2["id"] = "selftest-dropped"
     sverd, sst = tlc.validate_traces("Trace_ClfSense.tla", "Trace_ClfSense.cfg", PID + "/trs", straces + [bad, bad2],
                                      shards=8, timeout=1500)
+    tick("sense traces validated")
     for t in (bad, bad2):
         if sverd[t["id"]][0] == "ACCEPT":
             raise tlc.TLCError("binding vacuous: sense %s accepted" % t["id"])
